@@ -135,6 +135,8 @@ Proof. induction l as [|e l IH]; intros H b i; simpl; auto. apply mf_inv in H as
 Lemma mf_run_depth l : marker_free l -> forall i, run_depth i l = Some i.
 Proof. induction l as [|e l IH]; intros H i; simpl; auto. apply mf_inv in H as [H1 H2].
   destruct e; simpl in H1; try discriminate; rewrite IH; auto. Qed.
+Lemma mf_hooks k l : marker_free (map (fun p => Stmt k p false) l).
+Proof. intros x Hx. apply in_map_iff in Hx as (j & <- & _). reflexivity. Qed.
 Lemma mf_versions k l : marker_free (map (VersionStmt k) l).
 Proof. intros x Hx. apply in_map_iff in Hx as (j & <- & _). reflexivity. Qed.
 
@@ -147,7 +149,7 @@ Definition abs_item (tddl:bool) (k:N) (it:item) : list event :=
   end.
 Definition abs_core (tddl:bool) (k:N) (empty:bool) (s:ostep) : list event :=
   (if empty then [CreateVT k] else []) ++ Running k :: flat_map (abs_item tddl k) (os_body s)
-  ++ map (VersionStmt k) (vidx (os_nver s)).
+  ++ (map (VersionStmt k) (vidx (os_nver s)) ++ map (fun p => Stmt k p false) (os_hooks s)).
 Fixpoint abs_steps (tddl inner:bool) (k:N) (empty:bool) (steps:list ostep) : list event :=
   match steps with
   | [] => if empty then wrap inner [DropVT] else []
@@ -211,6 +213,9 @@ Section Refine.
   Lemma T_items tddl k body : T (flat_map (item_chunks d tddl k) body) = flat_map (abs_item tddl k) body.
   Proof. induction body as [|it body IH]; cbn [flat_map]; auto. rewrite T_app, IH, T_item; auto. Qed.
 
+  Lemma T_hooks k ps : T (flat_map (fun p => exec_chunk d (RStmt k p false)) ps) = map (fun p => Stmt k p false) ps.
+  Proof. induction ps as [|p ps IH]; cbn [flat_map map]; auto. rewrite T_app, IH, T_exec; auto. Qed.
+
   Lemma T_versions k l : T (flat_map (fun j => exec_chunk d (RVersion k j)) l) = map (VersionStmt k) l.
   Proof. induction l as [|j l IH]; cbn [flat_map map]; auto. rewrite T_app, IH, T_exec; auto. Qed.
 
@@ -220,7 +225,7 @@ Section Refine.
     - destruct empty; auto. rewrite T_with_ctx, bt_as_sql, T_exec; auto. simpl.
       destruct tddl, pm; reflexivity.
     - rewrite T_app, IH. f_equal. unfold step_chunks. rewrite T_with_ctx, bt_as_sql. cbn [m_tddl].
-      rewrite !T_app, T_items, T_versions. unfold abs_core.
+      rewrite !T_app, T_items, T_versions, T_hooks. unfold abs_core.
       replace (T (if empty then exec_chunk d (RCreate k) else [])) with (if empty then [CreateVT k] else []).
       2:{ destruct empty; auto. rewrite T_exec; auto. }
       destruct tddl, pm; reflexivity. Qed.
@@ -314,12 +319,13 @@ Proof. unfold abs_core. set (n := nauto (os_body s)). set (Q := P b (b + n) (Som
     - apply mf_cons; [reflexivity|apply mf_nil].
     - intros e [<-|[]]. unfold Q. simpl. repeat split; auto; try lia; try discriminate. }
   assert (S3 : Seg true b (flat_map (abs_item true k) (os_body s)) n Q) by apply body_seg.
-  assert (S4 : Seg true (b + n) (map (VersionStmt k) (vidx (os_nver s))) 0 Q).
+  assert (S4 : Seg true (b + n) (map (VersionStmt k) (vidx (os_nver s)) ++ map (fun p => Stmt k p false) (os_hooks s)) 0 Q).
   { apply Seg_mf.
-    - apply mf_versions.
-    - intros e He. apply in_map_iff in He as (j & <- & _). unfold Q. simpl. repeat split; auto; try lia; try discriminate. }
-  change (Running k :: flat_map (abs_item true k) (os_body s) ++ map (VersionStmt k) (vidx (os_nver s)))
-    with ([Running k] ++ flat_map (abs_item true k) (os_body s) ++ map (VersionStmt k) (vidx (os_nver s))).
+    - apply mf_app; [apply mf_versions|apply mf_hooks].
+    - intros e He. apply in_app_or in He as [He|He]; apply in_map_iff in He as (j & <- & _); unfold Q; simpl;
+        repeat split; auto; try lia; try discriminate. }
+  change (Running k :: flat_map (abs_item true k) (os_body s) ++ (map (VersionStmt k) (vidx (os_nver s)) ++ map (fun p => Stmt k p false) (os_hooks s)))
+    with ([Running k] ++ flat_map (abs_item true k) (os_body s) ++ (map (VersionStmt k) (vidx (os_nver s)) ++ map (fun p => Stmt k p false) (os_hooks s))).
   replace n with (0 + (0 + (n + 0)))%nat at 1 by lia.
   apply Seg_app'; [exact S1|]. rewrite Nat.add_0_r.
   apply Seg_app'; [exact S2|]. rewrite Nat.add_0_r.
@@ -421,7 +427,7 @@ Proof. unfold no_auto. intros H. rewrite forallb_forall in *. intros it Hit. spe
   destruct it; simpl; auto. Qed.
 Lemma core_mf tddl k empty s : no_auto s = true \/ tddl = false -> marker_free (abs_core tddl k empty s).
 Proof. intros H. unfold abs_core. apply mf_app; [destruct empty; [apply mf_cons; [reflexivity|apply mf_nil]|apply mf_nil]|].
-  apply mf_cons; [reflexivity|]. apply mf_app; [|apply mf_versions].
+  apply mf_cons; [reflexivity|]. apply mf_app; [|apply mf_app; [apply mf_versions|apply mf_hooks]].
   apply body_mf. destruct H as [H|H]; auto. left. apply no_auto_forallb; auto. Qed.
 Lemma steps_mf tddl steps : forall k empty, forallb no_auto steps = true \/ tddl = false ->
   marker_free (abs_steps tddl false k empty steps).
@@ -464,8 +470,8 @@ Lemma content_steps tddl inner steps : forall k empty,
 Proof. induction steps as [|s steps IH]; intros k empty; simpl.
   - destruct empty; auto. rewrite content_wrap. reflexivity.
   - rewrite filter_app, content_wrap, IH. unfold abs_core. rewrite filter_app. simpl. rewrite filter_app, content_body.
-    rewrite (content_all (map _ _)).
-    2:{ intros e He. apply in_map_iff in He as (j & <- & _). reflexivity. }
+    rewrite (content_all (map _ _ ++ map _ _)).
+    2:{ intros e He. apply in_app_or in He as [He|He]; apply in_map_iff in He as (j & <- & _); reflexivity. }
     destruct empty; simpl; rewrite <- ?app_assoc; reflexivity. Qed.
 Lemma content_abs tddl pm r : filter content (abs tddl pm r) = expected_content r.
 Proof. unfold abs, expected_content. rewrite content_wrap. apply content_steps. Qed.
@@ -538,7 +544,7 @@ Section RefineCut.
   Proof. destruct b; simpl; auto. rewrite (T_app d), (T_begin d Hwf). reflexivity. Qed.
 
   Lemma T_core tddl pm k empty s : T (step_core d (mkMcfg tddl pm false true) k empty s) = abs_core tddl k empty s.
-  Proof. unfold step_core. cbn [m_tddl]. rewrite !(T_app d), (T_items d Hwf), (T_versions d Hwf). unfold abs_core.
+  Proof. unfold step_core. cbn [m_tddl]. rewrite !(T_app d), (T_items d Hwf), (T_versions d Hwf), (T_hooks d Hwf). unfold abs_core.
     replace (T (if empty then exec_chunk d (RCreate k) else [])) with (if empty then [CreateVT k] else []).
     2:{ destruct empty; auto. rewrite (T_exec d Hwf); auto. }
     reflexivity. Qed.
@@ -612,7 +618,8 @@ Lemma content_open b l : filter content (wrap_open b l) = filter content l.
 Proof. destruct b; reflexivity. Qed.
 Lemma content_core tddl k empty s : filter content (abs_core tddl k empty s) = step_content k empty s.
 Proof. unfold abs_core, step_content. rewrite filter_app. simpl. rewrite filter_app, content_body.
-  rewrite (content_all (map _ _)). 2:{ intros e He. apply in_map_iff in He as (j & <- & _). reflexivity. }
+  rewrite (content_all (map _ _ ++ map _ _)).
+  2:{ intros e He. apply in_app_or in He as [He|He]; apply in_map_iff in He as (j & <- & _); reflexivity. }
   destruct empty; reflexivity. Qed.
 Lemma content_steps_cut tddl inner steps : forall k empty,
   filter content (abs_steps_cut tddl inner k empty steps) = expected_cut k empty steps.
@@ -711,3 +718,26 @@ Proof. intros Hwf E. split.
     + apply (autocommit_thm d c r Hwf Ht e b i Hin).
     + apply (autocommit_thm d c r Hwf Ht e b i Hin).
   - intros Ht. apply no_markers_thm; auto. Qed.
+
+(* ------------------------------------------------------------------ K. several databases through one EnvironmentContext *)
+Lemma multi_nth_thm : forall calls env k c, nth_error calls k = Some c ->
+  nth_error (multi_out env calls) k =
+  Some (offline_out (dc_dialect c)
+          (mkOcfg (acc_of env (map dc_tddl (firstn (S k) calls))) (dc_per_mig c) (dc_conn_in_txn c) None) (dc_run c)).
+Proof. induction calls as [|c0 calls IH]; intros env k c; [destruct k; discriminate|].
+  destruct k as [|k]; simpl.
+  - intros [= <-]. reflexivity.
+  - intros H. rewrite (IH _ _ _ H). reflexivity. Qed.
+
+(* the script of database k is a function of call k and of the explicit options given up to it; the dialects (and
+   runs, and other settings) of the other calls do not matter *)
+Lemma multi_independent_thm calls calls' env k c : nth_error calls k = Some c -> nth_error calls' k = Some c ->
+  map dc_tddl (firstn k calls) = map dc_tddl (firstn k calls') ->
+  nth_error (multi_out env calls) k = nth_error (multi_out env calls') k.
+Proof. intros H H' E. rewrite (multi_nth_thm _ _ _ _ H), (multi_nth_thm _ _ _ _ H').
+  assert (F : forall l j, nth_error l j = Some c -> map dc_tddl (firstn (S j) l) = map dc_tddl (firstn j l) ++ [dc_tddl c]).
+  { clear. induction l as [|x l IH]; intros [|j]; cbn [nth_error]; try discriminate.
+    - intros [= ->]. reflexivity.
+    - intros H. change (firstn (S (S j)) (x :: l)) with (x :: firstn (S j) l).
+      change (firstn (S j) (x :: l)) with (x :: firstn j l). cbn [map app]. rewrite (IH j H). reflexivity. }
+  rewrite (F _ _ H), (F _ _ H'), E. reflexivity. Qed.
